@@ -90,7 +90,7 @@ func fragRunObj(e *entry, obj any, wbin []byte, bufSize int, ch chunking) (verdi
 	if o.panicked != nil || o.err != nil {
 		return verdict{kind: "error"}, o
 	}
-	return judgeAgainst(e, obj, wbin, decoders[1], recv, n), o
+	return judgeAgainst(e, obj, wbin, decoders[1], recv, n, nil), o
 }
 
 // ---- components (for attributing an environment failure to the component that cannot cope with it)
